@@ -52,6 +52,9 @@ def History.suppresses (h : History) (q : Question) (now : Int) (known : List Re
 /-- `QuestionHistory.async_expire` -/
 def History.expire (h : History) (now : Int) : History := h.filter (fun e => !(Gen.History.expire_old now e.time))
 
+/-- what `AsyncEngine._async_cache_cleanup` does to the history every 10 s: `question_history.async_expire(now)` -/
+def History.cleanupTick (h : History) (now : Int) : History := h.expire (Gen.History.cleanup_expire_time now)
+
 /-! ### known answers -/
 
 /-- `cache.get_all_by_details(name, type, class)` over the list of cached records -/
